@@ -29,7 +29,7 @@ func (cc *CallCtx) recvCell(i int) *Cell {
 		return nil
 	}
 	if len(r.Alts) != 1 {
-		inconclusive("model receiver not concretized at %s: %s", cc.e.posOf(cc.c), valStr(r))
+		inconclusive("model receiver not concretized at %s (%s): %s", cc.e.posOf(cc.c), cc.e.opName(cc.c), valStr(r))
 	}
 	cell, ok := r.Alts[0].R.(*Cell)
 	if !ok {
@@ -287,7 +287,6 @@ func init() {
 	models["sync.NewCond"] = &Model{Plain: func(cc *CallCtx) Value {
 		t := cc.site.Common.Value.Type().(*types.Signature).Results().At(0).Type().(*types.Pointer).Elem()
 		cell := cc.e.allocCell(cc.c, t, "cond")
-		storeCell(cell, zeroValue(t), cc.c.g)
 		storeCell(fieldCell(cell, "L"), cc.args[0], cc.c.g)
 		return refTo(cell)
 	}}
